@@ -26,6 +26,12 @@ def match_finding(v, kk):
     site = v.get("site", {})
     for key, f in kk.items():
         m = f.get("match", {})
+        if "table" in m:
+            tup = [v["op"], site.get("lit"), site.get("prev"), site.get("next"),
+                   site.get("next2") if site.get("next") in ("(", "sizeof(") else ""]
+            if tup in m["table"]:
+                return key
+            continue
         if m.get("op") != v["op"]:
             continue
         ok = True
